@@ -119,19 +119,26 @@ fn det_run(w: &mut impl std::io::Write, run: usize, seed: u64, steps: usize) {
                         let form = r.below(8);
                         let ok = !(form >= 5);
                         writeln!(w, "P get {g} {}", ok as u8).unwrap();
-                        let res: Result<Result<Guard<'_>, AllocError>, ()> = match form {
-                            0 => Ok(Ok(pool_ref.get())),
-                            1 => Ok(pool_ref.try_get()),
-                            2 => Ok(Ok(pool_ref.get_with_size(r.range(0, 5000) as usize))),
-                            3 => Ok(pool_ref.try_get_with_size(r.range(0, 5000) as usize)),
-                            4 => Ok(pool_ref.try_get_with_capacity(Layout::from_size_align(r.range(0, 3000) as usize, 1 << r.below(6)).unwrap())),
+                        // every form runs inside catch_unwind: only form 5 may unwind (capacity overflow of a panicking
+                        // get); a try_ form or an ordinary get that panics - e.g. on a mutex poisoned by an earlier form 5 -
+                        // is reported (C07: try_ methods return an error without panicking; C19: the pool stays usable)
+                        let (sz, cap_l) = (r.range(0, 5000) as usize, Layout::from_size_align(r.range(0, 3000) as usize, 1 << r.below(6)).unwrap());
+                        let caught: Result<Result<Guard<'_>, AllocError>, ()> = catch_unwind(AssertUnwindSafe(|| match form {
+                            0 => Ok(pool_ref.get()),
+                            1 => pool_ref.try_get(),
+                            2 => Ok(pool_ref.get_with_size(sz)),
+                            3 => pool_ref.try_get_with_size(sz),
+                            4 => pool_ref.try_get_with_capacity(cap_l),
                             // creation panics (capacity overflow) while the pool lock is held
-                            5 => catch_unwind(AssertUnwindSafe(|| pool_ref.get_with_size(usize::MAX))).map(Ok).map_err(|_| ()),
+                            5 => Ok(pool_ref.get_with_size(usize::MAX)),
                             // creation reports an error (overflow)
-                            6 => Ok(pool_ref.try_get_with_size(usize::MAX)),
+                            6 => pool_ref.try_get_with_size(usize::MAX),
                             // the base allocator refuses (only consumed when a chunk is requested)
-                            _ => { FAIL_NEXT.store(true, SeqCst); let q = pool_ref.try_get(); FAIL_NEXT.store(false, SeqCst); Ok(q) }
-                        };
+                            _ => { FAIL_NEXT.store(true, SeqCst); let q = pool_ref.try_get(); FAIL_NEXT.store(false, SeqCst); q }
+                        })).map_err(|_| ());
+                        FAIL_NEXT.store(false, SeqCst);
+                        if caught.is_err() && form != 5 { x(w, "try-get-panicked", format!("get form {form} ({}) panicked instead of returning", ["get", "try_get", "get_with_size", "try_get_with_size", "try_get_with_capacity", "", "try_get_with_size(usize::MAX)", "try_get under a refusing allocator"][form as usize])); }
+                        let res = caught;
                         match res {
                             Ok(Ok(gd)) => {
                                 let a = arena_of(&gd);
@@ -147,7 +154,7 @@ fn det_run(w: &mut impl std::io::Write, run: usize, seed: u64, steps: usize) {
                         let i = r.below(guards.len() as u64) as usize;
                         let (g, gd) = guards.swap_remove(i);
                         writeln!(w, "P drop {g}").unwrap();
-                        drop(gd);
+                        if catch_unwind(AssertUnwindSafe(move || drop(gd))).is_err() { x(w, "try-get-panicked", format!("dropping guard {g} panicked")); }
                         writeln!(w, "R U").unwrap();
                     }
                     55..=59 if !guards.is_empty() => {
